@@ -167,6 +167,7 @@ def _decorate_namespace_function(
         base_postconditions = []  # type: List[Contract]
 
         bases_have_func = False
+        base_accepts_all = False
         for base in bases:
             if hasattr(base, key):
                 bases_have_func = True
@@ -182,6 +183,17 @@ def _decorate_namespace_function(
                         base_contract_checker.__postcondition_snapshots__
                     )
                     base_postconditions.extend(base_contract_checker.__postconditions__)
+
+                if (
+                    base_contract_checker is None
+                    or not base_contract_checker.__preconditions__
+                ):
+                    base_accepts_all = True
+
+        # A base which specifies no preconditions accepts all the input. Since the preconditions are OR'ed,
+        # the function must accept all the input as well, no matter what the other bases require.
+        if base_accepts_all:
+            base_preconditions = []
 
         # Collapse preconditions and postconditions from the bases with the function's own ones
         preconditions = _collapse_preconditions(
@@ -246,6 +258,7 @@ def _decorate_namespace_property(
         base_postconditions = []  # type: List[Contract]
 
         bases_have_func = False
+        base_accepts_all = False
         for base in bases:
             if hasattr(base, key):
                 base_property = getattr(base, key)
@@ -281,6 +294,17 @@ def _decorate_namespace_property(
                         base_contract_checker.__postcondition_snapshots__
                     )
                     base_postconditions.extend(base_contract_checker.__postconditions__)
+
+                if (
+                    base_contract_checker is None
+                    or not base_contract_checker.__preconditions__
+                ):
+                    base_accepts_all = True
+
+        # A base which specifies no preconditions accepts all the input. Since the preconditions are OR'ed,
+        # the function must accept all the input as well, no matter what the other bases require.
+        if base_accepts_all:
+            base_preconditions = []
 
         # Add preconditions and postconditions of the function
         preconditions = []  # type: List[List[Contract]]
